@@ -789,6 +789,109 @@ def drawseq_rule(ctx, facts, fid):
     return n
 
 
+def nohash_rule(ctx, facts):
+    """NOHASH: the pass-through hashers of the crate (three copies of NoHashHasher) assemble the 4 or 8 bytes they are given into
+    one word big-endian, every byte exactly once — bytes[i] << 8*(N-1-i) summed or or-ed, `from_be_bytes` of the bytes in order, or
+    the fold `acc << 8 | b` over all of them. A byte used twice (and another dropped) makes distinct items hash alike: with this
+    hasher two such items are one element of the sketched set. Forms the evaluator does not know are listed as information."""
+    ctx.rule("NOHASH", "every NoHashHasher::write assembles its 4 or 8 bytes big-endian with each byte used exactly once (explicit shifts, "
+                       "from_be_bytes of the bytes in order, or the fold acc << 8 | b): distinct items keep distinct hashes")
+    n = 0
+    for fid, fn in facts.fns.items():
+        if "hir" not in fn or not fid.endswith("NoHashHasher as std::hash::Hasher>::write"):
+            continue
+        R = resolver_of(fn)
+        t = tree_of(fn)
+        BY = hirq.show_pat(fn["params"][1]["pat"]) if len(fn.get("params", [])) > 1 else "bytes"
+        sites = []
+        for x in user_nodes(fn):
+            if x["k"] == "Assign":
+                r_ = nf.strip_casts(x["r"])
+                if r_["k"] == "Call" and short(r_.get("callee", "") or hirq.show(r_["f"])).endswith("NoHashHasher") and len(r_["args"]) == 1:
+                    sites.append((x, r_["args"][0]))
+                elif nf.nf(x["l"]) == "self.0":
+                    sites.append((x, x["r"]))
+
+        def terms(e, shift=0, env=None, depth=0):
+            """[(byte index, shift)] of an or/sum of shifted bytes, or None"""
+            e = nf.strip_casts(e)
+            k = e["k"]
+            if k == "Path" and "local" in e["res"]:
+                if env and e["res"]["name"] in env:
+                    return None
+                d = R.lookup(e["res"]["local"], e)
+                return terms(d, shift, env, depth + 1) if d is not None and depth < 8 else None
+            if k == "Binary" and e["op"] in ("+", "|", "^"):
+                a, b = terms(e["l"], shift, env, depth), terms(e["r"], shift, env, depth)
+                return a + b if a is not None and b is not None else None
+            if k == "Binary" and e["op"] == "<<":
+                sh = nf.strip_casts(e["r"])
+                if sh["k"] == "Lit":
+                    return terms(e["l"], shift + int(sh["v"]), env, depth)
+                return None
+            if k == "Index" and nf.nf(e["base"]) == BY:
+                i_ = nf.strip_casts(e["idx"])
+                if i_["k"] == "Lit":
+                    return [(int(i_["v"]), shift)]
+                if env and i_["k"] == "Path" and i_["res"].get("name") in env:
+                    return [(env[i_["res"]["name"]], shift)]
+                return None
+            if k == "Call" and nf.strip(e["f"])["k"] == "Path" and "local" in nf.strip(e["f"])["res"] and len(e["args"]) == 1:
+                # a local closure |i| bytes[i] as u64
+                cl = R.lookup(nf.strip(e["f"])["res"]["local"], e) or (R.defs.get(nf.strip(e["f"])["res"]["local"]) if hasattr(R, "defs") else None)
+                a0 = nf.strip_casts(e["args"][0])
+                if cl is not None and nf.strip(cl)["k"] == "Closure" and a0["k"] == "Lit" and len(nf.strip(cl)["params"]) == 1:
+                    c_ = nf.strip(cl)
+                    return terms(c_["body"], shift, {hirq.show_pat(c_["params"][0]): int(a0["v"])}, depth + 1)
+                return None
+            if k == "Call" and short(e.get("callee", "")) == "from_be_bytes" and len(e["args"]) == 1:
+                a0 = nf.strip_casts(e["args"][0])
+                for _ in range(4):
+                    if a0["k"] == "Path" and "local" in a0["res"] and R.lookup(a0["res"]["local"], a0) is not None:
+                        a0 = nf.strip_casts(R.lookup(a0["res"]["local"], a0))
+                if a0["k"] == "Array":
+                    out_ = []
+                    n_ = len(a0["es"])
+                    for j_, el in enumerate(a0["es"]):
+                        tj = terms(el, shift + 8 * (n_ - 1 - j_), env, depth)
+                        if tj is None:
+                            return None
+                        out_ += tj
+                    return out_
+                if BY in nf.nf(a0, True) and ("try_into" in nf.nf(a0, True) or "try_from" in nf.nf(a0, True)):
+                    return "ALL-BE"
+                return None
+            if k == "MethodCall" and e["name"] == "fold" and len(e["args"]) == 2 and nf.strip(e["args"][1])["k"] == "Closure":
+                src = nf.strip(e["recv"])
+                while src["k"] == "MethodCall" and src["name"] in ("iter", "into_iter", "copied", "cloned") and not src["args"]:
+                    src = nf.strip(src["recv"])
+                cl = nf.strip(e["args"][1])
+                if nf.nf(src) == BY and nf.nf(e["args"][0], True) == "0" and len(cl["params"]) == 2:
+                    acc, b_ = hirq.show_pat(cl["params"][0]), hirq.show_pat(cl["params"][1]).lstrip("&")
+                    body = nf.nf(cl["body"], True).replace(" ", "")
+                    if body in ("((%s<<8)|%s)" % (acc, b_), "((%s<<8)+%s)" % (acc, b_), "(%s|(%s<<8))" % (b_, acc), "(%s+(%s<<8))" % (b_, acc)):
+                        return "ALL-BE"
+                return None
+            return None
+        for (x, e) in sites:
+            n += 1
+            tm = terms(e)
+            if tm is None:
+                ctx.info("%s: `%s` is not one of the byte assemblies the NOHASH evaluator knows; not judged" % (fid, nf.nf(e, True)[:80]))
+            elif tm == "ALL-BE":
+                ctx.ok("NOHASH", fid, "big-endian assembly of all the bytes (from_be_bytes / fold)", hirq.loc(x))
+            else:
+                N = len(tm)
+                want = sorted((i, 8 * (N - 1 - i)) for i in range(N))
+                if N in (4, 8) and sorted(tm) == want:
+                    ctx.ok("NOHASH", fid, "%d bytes, bytes[i] << %d - 8i, each once" % (N, 8 * (N - 1)), hirq.loc(x))
+                else:
+                    ctx.violation("NOHASH", fid, "byte assembly", hirq.loc(x),
+                                  "the word is assembled from (byte, shift) %s: expected every byte of 0..%d exactly once at shift 8*(N-1-i) — a byte used twice and another dropped "
+                                  "gives equal hashes to distinct items" % (sorted(tm), N))
+    ctx.floor("NoHashHasher::write byte assemblies", n, 3)
+
+
 def skip_rule(ctx, facts, fid):
     """SKIP: a sketch method processes every item: no `return`, `?` or `continue` can leave it before its last register write
     (the tabled early exits of the draw loops are breaks and are classified by EXIT)"""
@@ -951,6 +1054,7 @@ def run(ctx, facts):
         skip_rule(ctx, facts, fid)
         nd += drawseq_rule(ctx, facts, fid)
     ctx.floor("C04 draws inside draw loops", nd, 4)
+    nohash_rule(ctx, facts)
     # the densified sketchers finish by copying populated bins into empty ones: which bin an empty bin copies from must be
     # decided by a probe sequence keyed by the bin alone over the occupancy flags (the rules of C09), or the result depends
     # on the order of arrival
